@@ -652,7 +652,7 @@ func findLevelDecision(c *km.Ctx, s *km.Sem, h *ssa.Function) *ssa.Call {
 			continue
 		}
 		g := km.StaticCallee(cl.Common())
-		if g == nil || g.Blocks == nil || g.Pkg == nil || g.Pkg.Pkg.Path() != KMD {
+		if g == nil || g.Blocks == nil || g.Pkg == nil || !pkgIsKMD(g.Pkg) {
 			continue
 		}
 		res := g.Signature.Results()
